@@ -125,8 +125,12 @@ class Enum(SerializableField, metaclass=_EnumMeta):
         if self._is_enum:
             enum_names = {v.name for v in self._valid_enum_values}
             if (
-                not (isinstance(value, str) and value in enum_names)
-                and value not in self._valid_enum_values
+                not (
+                    isinstance(value, str)
+                    and not isinstance(value, enum.Enum)
+                    and value in enum_names
+                )
+                and not any(value is v for v in self._valid_enum_values)
             ):
                 enum_values = [r.name for r in self._valid_enum_values]
                 if len(enum_values) < 11:
